@@ -68,7 +68,9 @@ def plan(tier, prop):
                 "before/after every call; non-trivial = the probe completed "
                 "in both processes; distinct = distinct abstract event traces "
                 "(call kinds and outcomes)",
-        "expected_probes": ["probe_" + k for k in KINDS] +
+        "expected_probes": ["probe_" + k for k in KINDS] + [
+            "default_random_module", "callers_vertex_order",
+            "table_list_reused"] +
                            ["history_len_ge_6", "probe_raised_same_error",
                             "argument_snapshots", "workspace_reused"],
         "knob_ranges": {"history": "0-12 calls", "kinds": KINDS,
